@@ -31,6 +31,8 @@ func keySchedule(r *rig.Rng, frames int) []emu.KeyEvent {
 	return ks
 }
 
+var nbN int
+
 func check(c *rig.Ctx, name string, s emu.Scenario, caseID string) {
 	ok, _ := emu.Screen(s)
 	if !ok {
@@ -63,6 +65,20 @@ func check(c *rig.Ctx, name string, s emu.Scenario, caseID string) {
 	sd.DebugLCD, sd.Frames, sd.Keys, sd.Audio = true, 1, nil, false
 	emu.Run(sd, path)
 	c.Count("debug_lcd_interludes", 1)
+	// ... and in two runs out of three the process is busy with another emulator as well, which
+	// runs a frame after each frame of the one under observation (transfers, sound registers,
+	// interrupts of its own)
+	nbN++
+	if nbN%3 != 0 {
+		nr := rig.NewRng(c.Seed, 0xc24, uint64(nbN), uint64(c.Shard))
+		nb := prog.DMAStream(nr)
+		if nbN%3 == 2 {
+			nb = prog.Sound(nr)
+		}
+		s2.Neighbour = emu.TempROM(nb.ROM, "c24n")
+		defer os.Remove(s2.Neighbour)
+		c.Count("second_runs_beside_a_neighbour", 1)
+	}
 	t2 := emu.Run(s2, path)
 	cfg := fmt.Sprintf("video=%v audio=%v frames=%d keys=%d", s.Video, s.Audio, s.Frames, len(s.Keys))
 	if d := emu.Diff(t1, t2); d != "" {
@@ -154,6 +170,22 @@ func run(c *rig.Ctx) {
 		frames := 3 + r.Intn(3)
 		s := emu.Scenario{ROM: p.ROM, Video: i%2 == 0, Audio: false, Frames: frames, Keys: keySchedule(r, frames)}
 		check(c, "overlapping-objects program", s, fmt.Sprintf("sprites:%d", i))
+	})
+	// (2b") transfers in flight at nearly every frame boundary
+	c.Part("dma-stream", c.N(6, 60), func(i int64, r *rig.Rng) {
+		p := prog.DMAStream(r)
+		frames := 2 + r.Intn(4)
+		s := emu.Scenario{ROM: p.ROM, Video: i%2 == 0, Frames: frames, Keys: keySchedule(r, frames)}
+		check(c, "dma-stream program", s, fmt.Sprintf("dma-stream:%d", i))
+		c.Count("dma_stream_scenarios", 1)
+	})
+	// (2b"') the biggest images (256 and 512 banks), upper banks read from the first instruction on
+	c.Part("big-rom", c.N(4, 24), func(i int64, r *rig.Rng) {
+		p := prog.BigROM(r)
+		frames := 1 + r.Intn(3)
+		s := emu.Scenario{ROM: p.ROM, Video: i%2 == 0, Frames: frames}
+		check(c, fmt.Sprintf("big-rom program (%d KiB)", len(p.ROM)>>10), s, fmt.Sprintf("big-rom:%d", i))
+		c.Count("big_rom_scenarios", 1)
 	})
 	// (2b') a different program with the very same header (title, type, sizes, checksums) and
 	// length was loaded earlier in the process: the program under test must still behave as in
